@@ -177,7 +177,7 @@ func c08Exec(k *c08Case) *c08Outcome {
 				typ = uapi.MsgSet
 			}
 			if k.Adv == "foreign-data" {
-				seq = m.Seq + 3
+				seq = foreignSeq(m.Seq)
 			}
 			st = append(st, wrap(simkernel.Dgram(typ, 0, seq, m.Pid, out.Planned.Status))...)
 		case uapi.MsgListRules:
@@ -188,7 +188,7 @@ func c08Exec(k *c08Case) *c08Outcome {
 					typ = 1305
 				}
 				if i == len(rules)/2 && k.Adv == "foreign-data" {
-					seq = m.Seq + 3
+					seq = foreignSeq(m.Seq)
 				}
 				st = append(st, wrap(simkernel.Dgram(typ, uapi.NlmFMulti, seq, m.Pid, rl))...)
 			}
@@ -255,6 +255,16 @@ func c08Exec(k *c08Case) *c08Outcome {
 		out.FollowOK = true
 	}
 	return out
+}
+
+// foreignSeq is a sequence number that is neither the request's nor 0 (sequence 0 marks an
+// unsolicited event, which is skipped by design, not a foreign reply).
+func foreignSeq(seq uint32) uint32 {
+	f := seq + 3
+	if f == 0 {
+		f = seq + 4
+	}
+	return f
 }
 
 func statusEquals(s *libaudit.AuditStatus, b []byte) bool {
@@ -425,7 +435,7 @@ func c08Cases(c *mon.Ctx) []*c08Case {
 		}
 	}
 	// random: faults at every datagram
-	n := c.Pick(6000, 150000)
+	n := c.Pick(6000, 500000)
 	for i := 0; i < n; i++ {
 		r := c.Rand(5, uint64(i))
 		op := mon.Pick(r, c08Ops)
